@@ -337,7 +337,7 @@ def check(ctx):
     rep.add('H8', f_cr.site(rs[0] if rs else None), 'one id per signature is enforced on write', oks, expected=f'raise ValueError when ids.shape != (len({sc}),)', found=[(u(r)[:40], sorted(path_atoms(gmc[r]))) for r in rs], stmt='id count')
     ia = [c for c in calls_in(f_cr.node) if u(c.func) == 'cls._init_attrs']
     ds = [c for c in calls_in(f_cr.node) if u(c.func) == 'cls._init_datasets']
-    kwn = get_kw(ds[0], 'values_kw') if ds else None
+    kwn = get_arg(ds[0], 3, 'values_kw') if ds else None
     kwd = def_value(reaching_def(f_cr.node, kwn.id, next(s for s in f_cr.node.body if any(x is ds[0] for x in ast.walk(s))))) if isinstance(kwn, ast.Name) else kwn
     okc = len(ia) == 1 and len(ds) == 1 and [u(a) for a in ia[0].args] == [gc, f'{sc}.kmerspec', metan] and [u(a) for a in ds[0].args[:3]] == [gc, sc, idn] \
         and isinstance(kwd, ast.Call) and u(kwd.func) == 'dict' and {k.arg: u(k.value) for k in kwd.keywords} == {'compression': 'compression', 'compression_opts': 'compression_opts'}
